@@ -466,6 +466,90 @@ func runC10(w *World, r *Report) {
 
 	shareRule(w, r, "C10.unit-context-not-shared", "no escaping function literal (the per-task goroutines of the retriever flows, the tool-call goroutines) writes a context or other variable captured from its creator: each unit's run info travels in its own context", 5, "C09", "C09.capture-write")
 
+	shareRule(w, r, "C10.no-dead-default", "no default prepared for a nil configuration entry is forgotten: the router retriever's 'RouterLambda' unit is started and then calls the router function — a nil one leaves the unit started and never ended", 0, "C13", "C13.no-dead-default")
+
+	r.Rule("C10.flow-units-iff-not-self", "where a bundled flow reports a unit on behalf of a component it calls through an interface (ConcurrentRetrieveWithCallback around Retriever.Retrieve), each callbacks.OnStart / OnEnd / OnError call is under a test of components.IsCallbacksEnabled of that component: a component that fires its own callbacks is reported once, as it is when it is a graph node (the compose side of the same rule is C10.inject-iff-not-self)", 3)
+	{
+		n := 0
+		for _, fn := range w.RepoFuncs("flow/retriever/utils") {
+			// does this function (or its parent) call an interface method of a components value?
+			callsComponent := false
+			for _, f := range withAnons(topFunc(fn)) {
+				instrs(f, func(in ssa.Instruction) {
+					if c, ok := in.(ssa.CallInstruction); ok && c.Common().IsInvoke() && c.Common().Method.Name() == "Retrieve" {
+						callsComponent = true
+					}
+				})
+			}
+			if !callsComponent {
+				continue
+			}
+			// the flag: a value computed from components.IsCallbacksEnabled(…), possibly through a cell / free variable
+			fromICE := func(v ssa.Value) bool {
+				seen := map[ssa.Value]bool{}
+				var walk func(v ssa.Value, d int) bool
+				walk = func(v ssa.Value, d int) bool {
+					if v == nil || d > 8 || seen[v] {
+						return false
+					}
+					seen[v] = true
+					switch x := v.(type) {
+					case *ssa.Call:
+						return strings.HasSuffix(calleeFullName(x), "components.IsCallbacksEnabled")
+					case *ssa.UnOp:
+						if x.Op == token.NOT {
+							return walk(x.X, d+1)
+						}
+						switch a := x.X.(type) {
+						case *ssa.Alloc:
+							for _, ref := range *a.Referrers() {
+								if st, ok := ref.(*ssa.Store); ok && st.Addr == ssa.Value(a) && walk(st.Val, d+1) {
+									return true
+								}
+							}
+						case *ssa.FreeVar:
+							lit := a.Parent()
+							for i, fv := range lit.FreeVars {
+								if fv != a || lit.Parent() == nil {
+									continue
+								}
+								ok := false
+								instrs(lit.Parent(), func(in ssa.Instruction) {
+									if mc, isMC := in.(*ssa.MakeClosure); isMC && mc.Fn == lit {
+										if al, isAl := mc.Bindings[i].(*ssa.Alloc); isAl {
+											for _, ref := range *al.Referrers() {
+												if st, isSt := ref.(*ssa.Store); isSt && st.Addr == ssa.Value(al) && walk(st.Val, d+1) {
+													ok = true
+												}
+											}
+										} else if walk(mc.Bindings[i], d+1) {
+											ok = true
+										}
+									}
+								})
+								return ok
+							}
+						}
+					}
+					return false
+				}
+				return walk(v, 0)
+			}
+			instrs(fn, func(in ssa.Instruction) {
+				name := calleeFullName(in)
+				if !(strings.HasPrefix(name, modPath+"/callbacks.OnStart") || strings.HasPrefix(name, modPath+"/callbacks.OnEnd") || strings.HasPrefix(name, modPath+"/callbacks.OnError")) {
+					return
+				}
+				n++
+				guarded := hasGuard(in.Block(), func(g guard) bool { return fromICE(g.cond) })
+				r.Check(guarded, "C10.flow-units-iff-not-self", fmt.Sprintf("%s: callback call #%d is conditional on the component not firing its own", w.fname(fn), n), in.Pos(), "under a test of components.IsCallbacksEnabled(retriever)", "the flow fires start / end / error around the inner retriever unconditionally: a retriever that fires its own callbacks (IsCallbacksEnabled() == true) is reported twice per retrieval — two starts and two ends for one unit — while the same retriever as a plain graph node is reported once")
+			})
+		}
+		if n < 3 {
+			undecidedf("C10.flow-units-iff-not-self: only %d callback calls found around Retriever.Retrieve", n)
+		}
+	}
+
 	r.Rule("C10.init-detaches", "InitCallbacks installs a manager (or nil) into the context on every path: it never returns the incoming context unchanged", 1)
 	{
 		ic := w.Fn("internal/callbacks", "InitCallbacks")
